@@ -174,6 +174,8 @@ def run_case(case, ctx):
         v = np.array(v)
         v.flat[0] = 0
     x = Fxp(v, s, w, nf, raw=True, shifting=mode, overflow=ov, rounding=G.ROUNDINGS[(i // 6) % 5])
+    if i % 4 == 2:
+        x = G.historied(Fxp, x, rng)[0]
     for n in sorted(set([0, 1, rng.randint(0, w + 3), rng.randint(0, w + 3), w - 1, w, min(w + 3, 62 - w)])):
         if 0 <= n and w + n <= 62:
             _try(lambda: x << n)
